@@ -1,6 +1,699 @@
-//! C09 — not implemented yet.
-use crate::report::{Cfg, Report};
-
-pub fn run(_cfg: &Cfg, rep: &mut Report) {
-    rep.inconclusive("monitor for C09 not implemented".to_string());
+//! C09 — special functions are accurate over their whole finite range (DESIGN §3 C09).
+//!
+//! Events: every return value of `gamma`, `beta`, `digamma`, `erf`.
+//! Oracle: glibc `tgamma` / `erf` (validated against mpmath at development time), harmonic numbers
+//! in double-double, an independent digamma (recurrence to x >= 30, 10-term asymptotic series in
+//! double-double) and the functional identities of the property text.
+//! Workload: quick = stratified f32-representable sample + random f64; thorough = every f32 in the
+//! stated ranges (chunked over `par_cases`).
+//!
+//! The sweeps evaluate ~10^9 points, so assertions are accumulated per chunk in `Acc` and flushed
+//! into the report once per chunk (same bookkeeping as `Report::check`, without a map lookup per point).
+#[cfg(miri)]
+pub fn run(_cfg: &crate::report::Cfg, rep: &mut crate::report::Report) {
+    rep.inconclusive("C09 needs the glibc oracle (FFI) and has no Miri layer".to_string());
 }
+#[cfg(not(miri))]
+pub use native::run;
+
+#[cfg(not(miri))]
+mod native {
+use crate::gen::Rng;
+use crate::oracle::dd::Dd;
+use crate::oracle::special as sp;
+use crate::report::{guard, jnum, par_cases, Cfg, Hasher, Report, Violation};
+use compute::functions::{beta, digamma, erf, gamma};
+use serde_json::{json, Value};
+
+// ---------------------------------------------------------------------------------------------
+// bulk accounting
+
+#[derive(Default)]
+struct Acc {
+    checked: u64,
+    failed: u64,
+    first: Option<Value>,
+    worst: f64,
+}
+impl Acc {
+    #[inline]
+    fn hit(&mut self, ok: bool, ratio: f64, detail: impl FnOnce() -> Value) {
+        self.checked += 1;
+        if ratio > self.worst || ratio.is_nan() {
+            self.worst = if ratio.is_nan() { f64::INFINITY } else { ratio };
+        }
+        if !ok {
+            self.failed += 1;
+            if self.first.is_none() {
+                self.first = Some(detail());
+            }
+        }
+    }
+}
+
+/// Same bookkeeping as `Report::check`, for `acc.checked` evaluations at once.
+fn flush(rep: &mut Report, assertion: &str, regime: &str, acc: &mut Acc, worst_key: Option<&str>) {
+    if acc.checked == 0 {
+        return;
+    }
+    let st = rep.assert_stat(assertion);
+    st.checked += acc.checked;
+    st.failed += acc.failed;
+    if acc.failed > 0 {
+        let sig = format!("{}|{}", assertion, regime);
+        let cs = rep.case_seed;
+        match rep.violations.get_mut(&sig) {
+            Some(v) => v.count += acc.failed,
+            None => {
+                let mut d = acc.first.take().unwrap_or(json!(null));
+                if let Value::Object(m) = &mut d {
+                    m.insert("case_seed".into(), json!(cs));
+                }
+                rep.violations.insert(sig, Violation { assertion: assertion.to_string(), regime: regime.to_string(), count: acc.failed, first: d });
+            }
+        }
+    }
+    if let Some(k) = worst_key {
+        // only passing regimes feed the headroom note (a failing regime would just say "inf")
+        if acc.failed == 0 {
+            rep.note_max(k, acc.worst);
+        }
+    }
+    *acc = Acc::default();
+}
+
+fn count_cases(rep: &mut Report, regime: &str, n: u64) {
+    if n > 0 {
+        rep.evaluations += n;
+        rep.seen(regime, n);
+    }
+}
+
+// ---------------------------------------------------------------------------------------------
+// gamma
+
+/// First argument at which the one-step power `t^(z-1/2)` of the Lanczos form overflows is
+/// 142.57917 (where sqrt(2π)·t^(z−½) exceeds f64::MAX); the regime boundaries are fixed numbers (not derived from the library at run time).
+const POS_SPLIT: f64 = 142.57;
+const NEG_SPLIT: f64 = -141.57;
+const POLE_NBHD: f64 = 1e-3;
+const GAMMA_TOL: f64 = 1e-13;
+
+const G_REG: [&str; 6] = ["0<z<1e-3", "1e-3<=z<0.5", "0.5<=z<142.57", "z>=142.57", "-141.57<z<0", "z<=-141.57"];
+
+#[inline]
+fn g_regime(z: f64) -> usize {
+    if z > 0.0 {
+        if z < POLE_NBHD {
+            0
+        } else if z < 0.5 {
+            1
+        } else if z < POS_SPLIT {
+            2
+        } else {
+            3
+        }
+    } else if z > NEG_SPLIT {
+        4
+    } else {
+        5
+    }
+}
+
+/// distance to the nearest pole (non-positive integer) for z < 0
+#[inline]
+fn pole_dist(z: f64) -> f64 {
+    (z - z.round()).abs()
+}
+
+/// tolerance scale s(z) of DESIGN: 1 for z > 0, 1 + 40|z|eps/(1e-13 dist) for z < 0
+#[inline]
+fn s_of(z: f64) -> f64 {
+    if z > 0.0 {
+        1.0
+    } else {
+        1.0 + 40.0 * z.abs() * f64::EPSILON / (GAMMA_TOL * pole_dist(z))
+    }
+}
+
+#[inline]
+fn is_normal_finite(x: f64) -> bool {
+    x.is_finite() && x.abs() >= f64::MIN_POSITIVE
+}
+
+#[derive(Default)]
+struct GammaAccs {
+    n: [u64; 6],
+    finite: [Acc; 6],
+    rel: [Acc; 6],
+    skipped_pole: u64,
+    skipped_range: u64,
+}
+
+impl GammaAccs {
+    /// one observation of gamma(z); returns false if z is outside the quantifier (pole / range)
+    #[inline]
+    fn point(&mut self, z: f64) -> bool {
+        if !(z > -170.0 && z < 171.6) || z == 0.0 {
+            self.skipped_range += 1;
+            return false;
+        }
+        if z < 0.0 && (pole_dist(z) < POLE_NBHD || z > -POLE_NBHD) {
+            self.skipped_pole += 1;
+            return false;
+        }
+        let want = sp::tgamma(z);
+        if !is_normal_finite(want) {
+            self.skipped_range += 1;
+            return false;
+        }
+        let r = g_regime(z);
+        self.n[r] += 1;
+        let got = gamma(z);
+        let fin = got.is_finite();
+        self.finite[r].hit(fin, 0.0, || json!({"z": z, "observed": jnum(got), "expected": jnum(want), "why": "true value is a finite normal f64"}));
+        if fin {
+            let err = (got / want - 1.0).abs();
+            let tol = GAMMA_TOL * s_of(z);
+            self.rel[r].hit(err <= tol, err / tol, || json!({"z": z, "observed": jnum(got), "expected": jnum(want), "rel_err": jnum(err), "tolerance": tol, "pole_distance": if z < 0.0 { json!(pole_dist(z)) } else { json!(null) }}));
+        }
+        true
+    }
+    fn flush(&mut self, rep: &mut Report) {
+        for r in 0..6 {
+            let reg = format!("gamma:{}", G_REG[r]);
+            count_cases(rep, &reg, self.n[r]);
+            self.n[r] = 0;
+            flush(rep, "C09.gamma.finite", &reg, &mut self.finite[r], None);
+            let key = format!("worst_ratio.gamma.rel:{}", G_REG[r]);
+            flush(rep, "C09.gamma.rel", &reg, &mut self.rel[r], Some(&key));
+        }
+        rep.note_add("skipped.gamma.pole_neighbourhood", self.skipped_pole as f64);
+        rep.note_add("skipped.gamma.true_value_not_normal", self.skipped_range as f64);
+        self.skipped_pole = 0;
+        self.skipped_range = 0;
+    }
+}
+
+fn f32_pos_limit(x: f32) -> u32 {
+    // bits of the largest f32 strictly below x (x > 0)
+    let b = x.to_bits();
+    if (f32::from_bits(b) as f64) < x as f64 {
+        b
+    } else {
+        b - 1
+    }
+}
+
+// ---------------------------------------------------------------------------------------------
+// erf
+
+const ERF_TOL: f64 = 1.5e-7;
+const E_REG: [&str; 3] = ["x=0", "0<|x|<=6", "6<|x|<=40"];
+
+#[derive(Default)]
+struct ErfAccs {
+    n: [u64; 3],
+    odd: [Acc; 3],
+    bound: [Acc; 3],
+    acc: [Acc; 3],
+}
+impl ErfAccs {
+    /// x >= 0 (or +0): checks x and -x together
+    #[inline]
+    fn point(&mut self, x: f64) {
+        let r = if x == 0.0 {
+            0
+        } else if x <= 6.0 {
+            1
+        } else {
+            2
+        };
+        self.n[r] += 2;
+        let ep = erf(x);
+        let en = erf(-x);
+        self.odd[r].hit(en == -ep, 0.0, || json!({"x": x, "erf(x)": jnum(ep), "erf(-x)": jnum(en), "expected": "erf(-x) == -erf(x) exactly"}));
+        let m = ep.abs().max(en.abs());
+        self.bound[r].hit(m <= 1.0, 0.0, || json!({"x": x, "erf(x)": jnum(ep), "erf(-x)": jnum(en), "expected": "|erf| <= 1"}));
+        let want = sp::erf(x);
+        let e1 = (ep - want).abs();
+        let e2 = (en + want).abs();
+        let e = if e1 >= e2 || e1.is_nan() { e1 } else { e2 };
+        self.acc[r].hit(e <= ERF_TOL, e / ERF_TOL, || json!({"x": x, "erf(x)": jnum(ep), "erf(-x)": jnum(en), "expected erf(x)": want, "abs_err": jnum(e), "tolerance": ERF_TOL}));
+    }
+    fn flush(&mut self, rep: &mut Report) {
+        for r in 0..3 {
+            let reg = format!("erf:{}", E_REG[r]);
+            count_cases(rep, &reg, self.n[r]);
+            self.n[r] = 0;
+            flush(rep, "C09.erf.odd", &reg, &mut self.odd[r], None);
+            flush(rep, "C09.erf.bounded", &reg, &mut self.bound[r], None);
+            let key = format!("worst_ratio.erf.abs:{}", E_REG[r]);
+            flush(rep, "C09.erf.abs", &reg, &mut self.acc[r], Some(&key));
+        }
+    }
+}
+
+// ---------------------------------------------------------------------------------------------
+// digamma reference
+
+const EULER_HI: f64 = 0.577_215_664_901_532_9;
+const EULER_LO: f64 = -4.942_915_152_430_645e-18;
+
+/// B_{2k}/(2k), k = 1..10
+const BERN_OVER_2K: [(f64, f64); 10] = [
+    (1.0, 12.0),
+    (-1.0, 120.0),
+    (1.0, 252.0),
+    (-1.0, 240.0),
+    (1.0, 132.0),
+    (-691.0, 32760.0),
+    (1.0, 12.0),
+    (-3617.0, 8160.0),
+    (43867.0, 14364.0),
+    (-174611.0, 6600.0),
+];
+
+/// Independent digamma for x > 0: upward recurrence to y >= 30, then
+/// ln y − 1/(2y) − Σ_{k=1..10} B_{2k}/(2k y^{2k}), sums in double-double.
+fn digamma_ref(x: f64) -> f64 {
+    let mut acc = Dd::ZERO;
+    let mut y = Dd::new(x);
+    while y.hi < 30.0 {
+        acc = acc - Dd::ONE / y;
+        y = y + 1.0;
+    }
+    let inv = Dd::ONE / y;
+    let inv2 = inv * inv;
+    let mut series = Dd::ZERO;
+    let mut p = inv2;
+    for (num, den) in BERN_OVER_2K {
+        series = series + p * (Dd::new(num) / Dd::new(den));
+        p = p * inv2;
+    }
+    // ln of a double-double: ln(hi) + lo/hi (hi is x + integer, lo is tiny)
+    let ln_y = Dd::sum2(y.hi.ln(), y.lo / y.hi);
+    (acc + ln_y - inv * 0.5 - series).f()
+}
+
+/// ψ(n) = H_{n−1} − γ for n = 1..=nmax, in double-double
+fn digamma_integers(nmax: usize) -> Vec<f64> {
+    let euler = Dd { hi: EULER_HI, lo: EULER_LO };
+    let mut out = Vec::with_capacity(nmax + 1);
+    out.push(f64::NAN);
+    let mut h = Dd::ZERO;
+    for n in 1..=nmax {
+        out.push((h - euler).f());
+        h = h + Dd::ONE / Dd::new(n as f64);
+    }
+    out
+}
+
+/// oracle self-test: mpmath values (50 digits, rounded) of ψ at a few points
+fn digamma_selftest() -> Result<(), String> {
+    let table: [(f64, f64); 8] = [
+        (0.001, -1000.5755719318103),
+        (0.5, -1.963_510_026_021_423_5),
+        (1.0, -0.577_215_664_901_532_9),
+        (2.75, 0.8189010249754326),
+        (10.0, 2.251_752_589_066_721),
+        (29.5, 3.3673453638769155),
+        (1234.5, 7.118016231827998),
+        (1e6, 13.815510057964191),
+    ];
+    for (x, want) in table {
+        let got = digamma_ref(x);
+        if (got - want).abs() > 4e-15 * want.abs().max(1.0) {
+            return Err(format!("digamma_ref({}) = {:e}, mpmath {:e}", x, got, want));
+        }
+    }
+    Ok(())
+}
+
+const DIGAMMA_TOL: f64 = 1e-10;
+
+fn dg_regime(x: f64) -> &'static str {
+    if x < 1.0 {
+        "digamma:x<1"
+    } else if x < 6.0 {
+        "digamma:1<=x<6"
+    } else if x < 100.0 {
+        "digamma:6<=x<100"
+    } else {
+        "digamma:x>=100"
+    }
+}
+
+fn digamma_point(rep: &mut Report, x: f64) {
+    let reg = dg_regime(x);
+    rep.case(reg);
+    rep.distinct(Hasher::new().s("dg").f(x).finish(), true);
+    let got = match guard(|| digamma(x)) {
+        Ok(v) => v,
+        Err(msg) => {
+            rep.check("C09.digamma.no_panic", reg, false, || json!({"x": x, "panic": msg}));
+            return;
+        }
+    };
+    let want = digamma_ref(x);
+    let scale = want.abs().max(1.0);
+    let err = (got - want).abs() / scale;
+    rep.note_max("worst_ratio.digamma.abs", if err.is_nan() { f64::INFINITY } else { err / DIGAMMA_TOL });
+    rep.check("C09.digamma.abs", reg, err <= DIGAMMA_TOL, || json!({"x": x, "observed": jnum(got), "expected": want, "err/max(1,|psi|)": jnum(err), "tolerance": DIGAMMA_TOL}));
+    // ψ(x+1) = ψ(x) + 1/x
+    let up = digamma(x + 1.0);
+    let resid = (up - got - 1.0 / x).abs() / (up.abs().max(got.abs()).max(1.0 / x).max(1.0));
+    rep.note_max("worst_ratio.digamma.recurrence", if resid.is_nan() { f64::INFINITY } else { resid / DIGAMMA_TOL });
+    rep.check("C09.digamma.recurrence", reg, resid <= DIGAMMA_TOL, || json!({"x": x, "psi(x)": jnum(got), "psi(x+1)": jnum(up), "1/x": 1.0 / x, "scaled_residual": jnum(resid), "tolerance": DIGAMMA_TOL}));
+}
+
+// ---------------------------------------------------------------------------------------------
+// beta
+
+const BETA_TOL: f64 = 1e-12;
+
+fn beta_point(rep: &mut Report, a: f64, b: f64) {
+    let reg = if a + b >= POS_SPLIT { "beta:a+b>=142.57" } else { "beta:a+b<142.57" };
+    rep.case(reg);
+    rep.distinct(Hasher::new().s("beta").f(a).f(b).finish(), true);
+    let r = guard(|| (beta(a, b), beta(b, a)));
+    let (got, swapped) = match r {
+        Ok(v) => v,
+        Err(msg) => {
+            rep.check("C09.beta.no_panic", reg, false, || json!({"a": a, "b": b, "panic": msg}));
+            return;
+        }
+    };
+    // a, b < 80: all three true gammas are finite normal f64, so the quotient of glibc tgammas is
+    // a reference good to a few ulp; exp(lgamma…) (the form DESIGN quotes) is the cross-check.
+    let want = sp::tgamma(a) * sp::tgamma(b) / sp::tgamma(a + b);
+    let want2 = sp::lbeta(a, b).exp();
+    if !is_normal_finite(want) || (want / want2 - 1.0).abs() > 1e-12 {
+        rep.inconclusive(format!("beta reference disagreement at a={:e} b={:e}: {:e} vs {:e}", a, b, want, want2));
+        return;
+    }
+    let err = (got / want - 1.0).abs();
+    rep.check("C09.beta.rel", reg, err <= BETA_TOL, || json!({"a": a, "b": b, "observed": jnum(got), "expected": want, "rel_err": jnum(err), "tolerance": BETA_TOL}));
+    if err <= BETA_TOL {
+        rep.note_max("worst_ratio.beta.rel", err / BETA_TOL);
+    }
+    let sym = if got == swapped { 0.0 } else { (got / swapped - 1.0).abs() };
+    rep.check("C09.beta.symmetric", reg, sym <= BETA_TOL, || json!({"a": a, "b": b, "beta(a,b)": jnum(got), "beta(b,a)": jnum(swapped), "tolerance": BETA_TOL}));
+}
+
+// ---------------------------------------------------------------------------------------------
+// identities
+
+/// Γ(x+1) = xΓ(x), both sides from the library; tolerance 1e-13·(s(x)+s(x+1)) (each side is allowed
+/// its own error by the accuracy clause).
+fn recurrence_point(rep: &mut Report, x: f64) {
+    // make x + 1 exactly representable: otherwise the identity is tested at a perturbed argument
+    // (ulp(128)/2 · ψ(128) = 7e-14 — seen as a "residual" of the monitor's own making)
+    let x = (x + 1.0) - 1.0;
+    if Dd::sum2(x, 1.0).lo != 0.0 {
+        return;
+    }
+    if x == 0.0 || x + 1.0 == 0.0 {
+        return;
+    }
+    if x < 0.0 && (pole_dist(x) < POLE_NBHD || x > -POLE_NBHD) {
+        return;
+    }
+    let (t0, t1) = (sp::tgamma(x), sp::tgamma(x + 1.0));
+    if !is_normal_finite(t0) || !is_normal_finite(t1) || !is_normal_finite(x * t0) {
+        return;
+    }
+    let reg = if x + 1.0 >= POS_SPLIT {
+        "ident:x+1>=142.57"
+    } else if x <= NEG_SPLIT {
+        "ident:x<=-141.57"
+    } else if x > 0.0 {
+        "ident:0<x<141.57"
+    } else {
+        "ident:-141.57<x<0"
+    };
+    rep.case(reg);
+    rep.distinct(Hasher::new().s("rec").f(x).finish(), true);
+    let (g0, g1) = (gamma(x), gamma(x + 1.0));
+    let sx1 = if x + 1.0 > 0.0 { 1.0 } else { s_of(x + 1.0) };
+    let tol = GAMMA_TOL * (s_of(x) + sx1);
+    let err = (g1 / (x * g0) - 1.0).abs();
+    let ok = err <= tol;
+    if ok {
+        rep.note_max(if x > 0.0 { "worst_ratio.ident.recurrence:x>0" } else { "worst_ratio.ident.recurrence:x<0" }, err / tol);
+    }
+    rep.check("C09.ident.recurrence", reg, ok, || json!({"x": x, "gamma(x)": jnum(g0), "gamma(x+1)": jnum(g1), "rel_residual": jnum(err), "tolerance": tol}));
+}
+
+fn factorials(rep: &mut Report) {
+    let mut f = Dd::ONE;
+    for n in 0..=170u32 {
+        if n > 0 {
+            f = f * (n as f64);
+        }
+        let want = f.f();
+        let z = n as f64 + 1.0;
+        let reg = if z >= POS_SPLIT { "ident:n!:n>=142" } else { "ident:n!:n<=141" };
+        rep.case(reg);
+        rep.distinct(Hasher::new().s("fact").u(n as u64).finish(), n > 1);
+        let got = gamma(z);
+        let err = (got / want - 1.0).abs();
+        let ok = err <= GAMMA_TOL;
+        if ok {
+            rep.note_max("worst_ratio.ident.factorial", err / GAMMA_TOL);
+        }
+        rep.check("C09.ident.factorial", reg, ok, || json!({"n": n, "gamma(n+1)": jnum(got), "n!": want, "rel_err": jnum(err), "tolerance": GAMMA_TOL}));
+    }
+}
+
+// ---------------------------------------------------------------------------------------------
+
+pub fn run(cfg: &Cfg, rep: &mut Report) {
+    rep.rule = "gamma: f32-representable z in (-170,171.6) (quick: stratified sample — uniform in value and uniform in bit pattern; thorough: every f32, every 16th below 1e-3) + random f64; erf: f32-representable x in [-6,6] (thorough: all) + random f64 in ±40, x and -x observed together; beta: a,b log-uniform in (1e-3,80); digamma: all integers <= 1e4 and log-uniform (1e-3,1e6). non-trivial = argument is not 0/1/2; distinct = distinct argument bits (quick) or distinct 1024-wide f32 bit buckets (thorough sweeps; exact point counts are in notes.points.*)".into();
+    rep.assume("gamma arguments within 1e-3 of a pole (non-positive integer) are outside the quantifier and skipped; arguments whose true value (glibc tgamma) is not a finite normal f64 are skipped");
+    rep.assume("gamma tolerance 1e-13*s(z), s=1 for z>0, s=1+40|z|eps/(1e-13*dist(z,poles)) for z<0 (conditioning of the reflection formula w.r.t. one ulp of the argument)");
+    rep.assume("reference = glibc tgamma/erf (<= 1e-15 rel. vs mpmath at development time); digamma reference = own recurrence+asymptotic series in double-double, self-tested against 8 mpmath values");
+    rep.assume("beta reference = tgamma(a)tgamma(b)/tgamma(a+b), cross-checked with exp(lgamma a + lgamma b - lgamma(a+b)) to 1e-12");
+    if let Err(e) = digamma_selftest() {
+        rep.inconclusive(format!("oracle self-test failed: {}", e));
+        return;
+    }
+    let thorough = cfg.thorough() && !cfg.lite;
+
+    // ---- gamma: f32 arguments ------------------------------------------------------------------
+    let pos_hi = f32_pos_limit(171.6f32); // bits of the largest f32 < 171.6
+    let neg_hi = f32_pos_limit(170.0f32); // magnitude bits of the smallest f32 > -170
+    let small = (POLE_NBHD as f32).to_bits(); // below this: pole neighbourhood of 0
+    if thorough {
+        const CH: u32 = 1 << 20;
+        let npos = (pos_hi / CH + 1) as usize;
+        let nneg = (neg_hi / CH + 1) as usize;
+        par_cases(cfg, rep, 1, npos + nneg, |i, _rng, rep| {
+            let (neg, c, hi) = if i < npos { (false, i as u32, pos_hi) } else { (true, (i - npos) as u32, neg_hi) };
+            let lo_b = (c * CH).max(1);
+            let hi_b = ((c as u64 + 1) * CH as u64 - 1).min(hi as u64) as u32;
+            let mut acc = GammaAccs::default();
+            let r = guard(|| {
+                let mut b = lo_b;
+                while b <= hi_b {
+                    let z = f32::from_bits(b) as f64;
+                    let z = if neg { -z } else { z };
+                    let counted = acc.point(z);
+                    if counted && b & 1023 == 0 {
+                        rep.distinct(Hasher::new().s("g32").u(neg as u64).u((b >> 10) as u64).finish(), true);
+                    }
+                    // inside the neighbourhood of the pole at 0: skip (negative side) / thin out (positive side)
+                    b += if b < small { if neg { small - b } else { 16 } } else { 1 };
+                }
+            });
+            acc.flush(rep);
+            if let Err(msg) = r {
+                rep.check("C09.gamma.no_panic", "gamma:f32", false, || json!({"chunk_first_bits": lo_b, "negative": neg, "panic": msg}));
+            }
+        });
+    } else {
+        let per = 1000usize;
+        let n = cfg.pick(200, 200, 2);
+        par_cases(cfg, rep, 1, n, |i, rng: &mut Rng, rep| {
+            let mut acc = GammaAccs::default();
+            let r = guard(|| {
+                for k in 0..per {
+                    let z = match k % 4 {
+                        // uniform in value, rounded to f32 (stratum i of n)
+                        0 | 1 => {
+                            let w = (171.6 + 170.0) / n as f64;
+                            (-170.0 + w * (i as f64 + rng.f64())) as f32 as f64
+                        }
+                        // uniform in bit pattern: covers every binade
+                        2 => f32::from_bits(rng.int(small as i64, pos_hi as i64) as u32) as f64,
+                        _ => -(f32::from_bits(rng.int(small as i64, neg_hi as i64) as u32) as f64),
+                    };
+                    if acc.point(z) {
+                        rep.distinct(Hasher::new().s("g").f(z).finish(), z != 1.0 && z != 2.0);
+                    }
+                }
+            });
+            acc.flush(rep);
+            if let Err(msg) = r {
+                rep.check("C09.gamma.no_panic", "gamma:f32", false, || json!({"case": i, "panic": msg}));
+            }
+        });
+    }
+    // deterministic landmarks: half-integers, integers ± small f32 offsets, both defect boundaries
+    {
+        let mut acc = GammaAccs::default();
+        for n in -169..=171 {
+            for off in [0.0, 0.5, 0.25, 0.001953125, -0.001953125, 0.0625, -0.0625] {
+                let z = (n as f64 + off) as f32 as f64;
+                if acc.point(z) {
+                    rep.distinct(Hasher::new().s("g").f(z).finish(), z != 1.0 && z != 2.0);
+                }
+            }
+        }
+        acc.flush(rep);
+    }
+    // ---- gamma: random f64 ---------------------------------------------------------------------
+    {
+        let per = 1000usize;
+        let n = cfg.pick(100, 2000, 1);
+        par_cases(cfg, rep, 2, n, |i, rng: &mut Rng, rep| {
+            let mut acc = GammaAccs::default();
+            let r = guard(|| {
+                for k in 0..per {
+                    let z = match k % 4 {
+                        0 => rng.range(-170.0, 171.6),
+                        1 => rng.log_range(1e-3, 171.6),
+                        2 => -rng.log_range(1e-3, 170.0),
+                        // close to (but outside the neighbourhood of) a pole
+                        _ => -(rng.int(0, 169) as f64) + rng.log_range(POLE_NBHD, 0.5) * if rng.bool() { 1.0 } else { -1.0 },
+                    };
+                    if acc.point(z) {
+                        rep.distinct(Hasher::new().s("g").f(z).finish(), true);
+                    }
+                    if k % 4 != 3 {
+                        recurrence_point(rep, z);
+                    }
+                }
+            });
+            acc.flush(rep);
+            if let Err(msg) = r {
+                rep.check("C09.gamma.no_panic", "gamma:f64", false, || json!({"case": i, "panic": msg}));
+            }
+        });
+    }
+    factorials(rep);
+
+    // ---- erf ------------------------------------------------------------------------------------
+    let six = 6.0f32.to_bits();
+    if thorough {
+        const CH: u32 = 1 << 20;
+        let nch = (six / CH + 1) as usize;
+        par_cases(cfg, rep, 3, nch, |i, _rng, rep| {
+            let lo_b = i as u32 * CH;
+            let hi_b = ((i as u64 + 1) * CH as u64 - 1).min(six as u64) as u32;
+            let mut acc = ErfAccs::default();
+            let r = guard(|| {
+                for b in lo_b..=hi_b {
+                    acc.point(f32::from_bits(b) as f64);
+                    if b & 1023 == 0 {
+                        rep.distinct(Hasher::new().s("e32").u((b >> 10) as u64).finish(), b != 0);
+                    }
+                }
+            });
+            acc.flush(rep);
+            if let Err(msg) = r {
+                rep.check("C09.erf.no_panic", "erf:f32", false, || json!({"chunk_first_bits": lo_b, "panic": msg}));
+            }
+        });
+    }
+    {
+        let per = 5000usize;
+        let n = cfg.pick(100, 400, 1);
+        par_cases(cfg, rep, 4, n, |i, rng: &mut Rng, rep| {
+            let mut acc = ErfAccs::default();
+            let r = guard(|| {
+                if i == 0 {
+                    acc.point(0.0);
+                    acc.point(6.0);
+                    acc.point(f32::from_bits(1) as f64);
+                }
+                for k in 0..per {
+                    let x = match k % 5 {
+                        0 | 1 => rng.range(0.0, 6.0) as f32 as f64,
+                        2 => f32::from_bits(rng.int(1, six as i64) as u32) as f64,
+                        3 => rng.range(0.0, 40.0),
+                        _ => rng.log_range(1e-300, 40.0),
+                    };
+                    acc.point(x);
+                    rep.distinct(Hasher::new().s("e").f(x).finish(), true);
+                }
+            });
+            acc.flush(rep);
+            if let Err(msg) = r {
+                rep.check("C09.erf.no_panic", "erf:sample", false, || json!({"case": i, "panic": msg}));
+            }
+        });
+    }
+
+    // ---- beta -----------------------------------------------------------------------------------
+    {
+        let per = 500usize;
+        let n = cfg.pick(100, 2000, 1);
+        par_cases(cfg, rep, 5, n, |_i, rng: &mut Rng, rep| {
+            for k in 0..per {
+                let (a, b) = match k % 4 {
+                    0 | 1 => (rng.log_range(1e-3, 80.0), rng.log_range(1e-3, 80.0)),
+                    2 => (rng.range(1e-3, 80.0), rng.range(1e-3, 80.0)),
+                    // integer / half-integer arguments
+                    _ => (rng.int(1, 159) as f64 * 0.5, rng.int(1, 159) as f64 * 0.5),
+                };
+                beta_point(rep, a, b);
+            }
+        });
+    }
+
+    // ---- digamma --------------------------------------------------------------------------------
+    {
+        let nmax = if cfg.lite { 200 } else { 10_000 };
+        let table = digamma_integers(nmax);
+        let nch = 16usize.min(nmax);
+        par_cases(cfg, rep, 6, nch, |i, _rng, rep| {
+            let mut n = i + 1;
+            while n <= nmax {
+                let x = n as f64;
+                let reg = "digamma:integer";
+                rep.case(reg);
+                rep.distinct(Hasher::new().s("dgi").u(n as u64).finish(), n > 2);
+                match guard(|| digamma(x)) {
+                    Ok(got) => {
+                        let want = table[n];
+                        let err = (got - want).abs() / want.abs().max(1.0);
+                        rep.note_max("worst_ratio.digamma.harmonic", if err.is_nan() { f64::INFINITY } else { err / DIGAMMA_TOL });
+                        rep.check("C09.digamma.harmonic", reg, err <= DIGAMMA_TOL, || json!({"n": n, "observed": jnum(got), "expected H(n-1)-gamma": want, "err": jnum(err), "tolerance": DIGAMMA_TOL}));
+                    }
+                    Err(msg) => {
+                        rep.check("C09.digamma.no_panic", reg, false, || json!({"n": n, "panic": msg}));
+                    }
+                }
+                n += nch;
+            }
+        });
+        let per = 500usize;
+        let n = cfg.pick(100, 2000, 1);
+        par_cases(cfg, rep, 7, n, |_i, rng: &mut Rng, rep| {
+            for k in 0..per {
+                let x = match k % 4 {
+                    0 | 1 => rng.log_range(1e-3, 1e6),
+                    2 => rng.range(1e-3, 12.0),
+                    _ => rng.log_range(1e-3, 1e6) as f32 as f64,
+                };
+                digamma_point(rep, x);
+            }
+        });
+    }
+
+    for r in ["gamma:1e-3<=z<0.5", "gamma:0.5<=z<142.57", "gamma:z>=142.57", "gamma:-141.57<z<0", "gamma:z<=-141.57", "erf:x=0", "erf:0<|x|<=6", "erf:6<|x|<=40", "beta:a+b<142.57", "digamma:integer", "digamma:x<1", "digamma:1<=x<6", "digamma:6<=x<100", "digamma:x>=100", "ident:0<x<141.57", "ident:-141.57<x<0", "ident:n!:n<=141"] {
+        rep.require(r, 1);
+    }
+}
+} // mod native
